@@ -51,5 +51,34 @@ def idPatternFlags : Nat := 32
 def idPatternUses : List (List Char) := [
   [Char.ofNat 114, Char.ofNat 101, Char.ofNat 102, Char.ofNat 101, Char.ofNat 114, Char.ofNat 101, Char.ofNat 110, Char.ofNat 99, Char.ofNat 101, Char.ofNat 46, Char.ofNat 112, Char.ofNat 121, Char.ofNat 58, Char.ofNat 77, Char.ofNat 111, Char.ofNat 100, Char.ofNat 101, Char.ofNat 108, Char.ofNat 82, Char.ofNat 101, Char.ofNat 115, Char.ofNat 111, Char.ofNat 108, Char.ofNat 118, Char.ofNat 101, Char.ofNat 114, Char.ofNat 46, Char.ofNat 114, Char.ofNat 101, Char.ofNat 115, Char.ofNat 111, Char.ofNat 108, Char.ofNat 118, Char.ofNat 101, Char.ofNat 95, Char.ofNat 114, Char.ofNat 101, Char.ofNat 102, Char.ofNat 58, Char.ofNat 73, Char.ofNat 68, Char.ofNat 95, Char.ofNat 80, Char.ofNat 65, Char.ofNat 84, Char.ofNat 84, Char.ofNat 69, Char.ofNat 82, Char.ofNat 78, Char.ofNat 46, Char.ofNat 109, Char.ofNat 97, Char.ofNat 116, Char.ofNat 99, Char.ofNat 104, Char.ofNat 40, Char.ofNat 106, Char.ofNat 111, Char.ofNat 105, Char.ofNat 110, Char.ofNat 101, Char.ofNat 100, Char.ofNat 95, Char.ofNat 112, Char.ofNat 97, Char.ofNat 116, Char.ofNat 104, Char.ofNat 41] /- reference.py:ModelResolver.resolve_ref:ID_PATTERN.match(joined_path) -/
 ]
+/-- fields of `JsonSchemaObject` whose annotation mentions `JsonSchemaObject`: the keywords under which a subschema can stand -/
+def schemaFields : List (List Char) := [
+  [Char.ofNat 105, Char.ofNat 116, Char.ofNat 101, Char.ofNat 109, Char.ofNat 115] /- items -/,
+  [Char.ofNat 97, Char.ofNat 100, Char.ofNat 100, Char.ofNat 105, Char.ofNat 116, Char.ofNat 105, Char.ofNat 111, Char.ofNat 110, Char.ofNat 97, Char.ofNat 108, Char.ofNat 80, Char.ofNat 114, Char.ofNat 111, Char.ofNat 112, Char.ofNat 101, Char.ofNat 114, Char.ofNat 116, Char.ofNat 105, Char.ofNat 101, Char.ofNat 115] /- additionalProperties -/,
+  [Char.ofNat 112, Char.ofNat 97, Char.ofNat 116, Char.ofNat 116, Char.ofNat 101, Char.ofNat 114, Char.ofNat 110, Char.ofNat 80, Char.ofNat 114, Char.ofNat 111, Char.ofNat 112, Char.ofNat 101, Char.ofNat 114, Char.ofNat 116, Char.ofNat 105, Char.ofNat 101, Char.ofNat 115] /- patternProperties -/,
+  [Char.ofNat 111, Char.ofNat 110, Char.ofNat 101, Char.ofNat 79, Char.ofNat 102] /- oneOf -/,
+  [Char.ofNat 97, Char.ofNat 110, Char.ofNat 121, Char.ofNat 79, Char.ofNat 102] /- anyOf -/,
+  [Char.ofNat 97, Char.ofNat 108, Char.ofNat 108, Char.ofNat 79, Char.ofNat 102] /- allOf -/,
+  [Char.ofNat 112, Char.ofNat 114, Char.ofNat 111, Char.ofNat 112, Char.ofNat 101, Char.ofNat 114, Char.ofNat 116, Char.ofNat 105, Char.ofNat 101, Char.ofNat 115] /- properties -/
+]
+/-- attributes of the walked object whose values reach the recursive call of `JsonSchemaParser.parse_ref` -/
+def parseRefDescends : List (List Char) := [
+  [Char.ofNat 105, Char.ofNat 116, Char.ofNat 101, Char.ofNat 109, Char.ofNat 115] /- items -/,
+  [Char.ofNat 97, Char.ofNat 110, Char.ofNat 121, Char.ofNat 79, Char.ofNat 102] /- anyOf -/,
+  [Char.ofNat 97, Char.ofNat 108, Char.ofNat 108, Char.ofNat 79, Char.ofNat 102] /- allOf -/,
+  [Char.ofNat 111, Char.ofNat 110, Char.ofNat 101, Char.ofNat 79, Char.ofNat 102] /- oneOf -/,
+  [Char.ofNat 97, Char.ofNat 100, Char.ofNat 100, Char.ofNat 105, Char.ofNat 116, Char.ofNat 105, Char.ofNat 111, Char.ofNat 110, Char.ofNat 97, Char.ofNat 108, Char.ofNat 80, Char.ofNat 114, Char.ofNat 111, Char.ofNat 112, Char.ofNat 101, Char.ofNat 114, Char.ofNat 116, Char.ofNat 105, Char.ofNat 101, Char.ofNat 115] /- additionalProperties -/,
+  [Char.ofNat 112, Char.ofNat 97, Char.ofNat 116, Char.ofNat 116, Char.ofNat 101, Char.ofNat 114, Char.ofNat 110, Char.ofNat 80, Char.ofNat 114, Char.ofNat 111, Char.ofNat 112, Char.ofNat 101, Char.ofNat 114, Char.ofNat 116, Char.ofNat 105, Char.ofNat 101, Char.ofNat 115] /- patternProperties -/,
+  [Char.ofNat 112, Char.ofNat 114, Char.ofNat 111, Char.ofNat 112, Char.ofNat 101, Char.ofNat 114, Char.ofNat 116, Char.ofNat 105, Char.ofNat 101, Char.ofNat 115] /- properties -/
+]
+/-- attributes of the walked object whose values reach the recursive call of `JsonSchemaParser.parse_id` -/
+def parseIdDescends : List (List Char) := [
+  [Char.ofNat 105, Char.ofNat 116, Char.ofNat 101, Char.ofNat 109, Char.ofNat 115] /- items -/,
+  [Char.ofNat 97, Char.ofNat 110, Char.ofNat 121, Char.ofNat 79, Char.ofNat 102] /- anyOf -/,
+  [Char.ofNat 97, Char.ofNat 108, Char.ofNat 108, Char.ofNat 79, Char.ofNat 102] /- allOf -/,
+  [Char.ofNat 97, Char.ofNat 100, Char.ofNat 100, Char.ofNat 105, Char.ofNat 116, Char.ofNat 105, Char.ofNat 111, Char.ofNat 110, Char.ofNat 97, Char.ofNat 108, Char.ofNat 80, Char.ofNat 114, Char.ofNat 111, Char.ofNat 112, Char.ofNat 101, Char.ofNat 114, Char.ofNat 116, Char.ofNat 105, Char.ofNat 101, Char.ofNat 115] /- additionalProperties -/,
+  [Char.ofNat 112, Char.ofNat 97, Char.ofNat 116, Char.ofNat 116, Char.ofNat 101, Char.ofNat 114, Char.ofNat 110, Char.ofNat 80, Char.ofNat 114, Char.ofNat 111, Char.ofNat 112, Char.ofNat 101, Char.ofNat 114, Char.ofNat 116, Char.ofNat 105, Char.ofNat 101, Char.ofNat 115] /- patternProperties -/,
+  [Char.ofNat 112, Char.ofNat 114, Char.ofNat 111, Char.ofNat 112, Char.ofNat 101, Char.ofNat 114, Char.ofNat 116, Char.ofNat 105, Char.ofNat 101, Char.ofNat 115] /- properties -/
+]
 
 end Dcg.Gen.ResolverTables
